@@ -1664,6 +1664,46 @@ class Run:
                        "(universe %s)" % (type(x).__name__, self.cfg["universe"]))
         return e["label"]
 
+    def op_expunge_owner(self, a1, a2):
+        """C39: an owner is expunged in the middle of a transaction in which one of the members of its loaded collection has been deleted
+        and flushed (the member is still listed: the relationship has no reverse side that would have removed it).  The expunge cascade
+        reaches it like every other member: it leaves the session, and the rollback that follows does not bring it back into it"""
+        sess = self.session
+        if sess.new or sess.dirty or sess.deleted or self.sp_stack or self.txn_flushed:
+            return "skip"      # (everything persistent is committed: the rollback below takes back the one DELETE and nothing else)
+        q = self.pick(a1, lambda e: e["cls"] == "Q" and OS.state_of(e["obj"]) == "persistent" and self.in_session(e["obj"]))
+        if q is None:
+            return "skip"
+        qo = q["obj"]
+        members = [r for r in qo.rs]
+        if not members or not all(OS.state_of(r) == "persistent" and self.in_session(r) for r in members):
+            return "skip"
+        r = members[a2 % len(members)]
+        sess.delete(r)
+        sess.flush()
+        self.txn_flushed = True
+        if OS.state_of(r) != "deleted" or not any(x is r for x in OS.loaded(qo, "rs")[1] or ()):
+            return "skip"
+        sess.expunge(qo)
+        group = [qo] + members
+        for x in group:
+            ex = self.by_id.get(id(x))
+            if ex is not None:
+                ex["expunged"] = True
+                ex["retired"] = True
+        left = [x for x in group if self.in_session(x)]
+        if left:
+            self.V("C39", "expunge_cascade_missed", "expunge() of a Q left %s in the session although Q.rs cascades expunge (a member in the "
+                   "'deleted' state, flushed in the open transaction, is a member like any other)"
+                   % ", ".join("%s(%s)" % (type(x).__name__, OS.state_of(x)) for x in left))
+        self.op_rollback(0, 0)
+        back = [x for x in group if self.in_session(x) or self.m["inspect"](x).key in sess.identity_map and sess.identity_map[self.m["inspect"](x).key] is x]
+        if back:
+            self.V("C39", "expunged_object_reacquired", "after expunge() of a Q and its members and a rollback, the session holds %s again"
+                   % ", ".join(type(x).__name__ for x in back))
+        self.bump("probe:owner_expunged_with_deleted_member")
+        return "%d expunged with a deleted member" % q["label"]
+
     def closure(self, o, cascade_name):
         """objects reachable from o through relationships carrying the given cascade, following *loaded* values only"""
         seen, todo, out = {id(o)}, [o], []
